@@ -42,12 +42,35 @@ theorem rejected_regression_F10_F11 :
     (runOps State.initial [] [.new ⟨.client, 0, 0, 1000000, 1000000, 1000000⟩,
         .params ⟨100000, 100000, 100000, 10, 10, 2000⟩]).map (fun r => r.1.proj) := by decide
 
-/-- after `retransmit_all_for_0rtt` every stream the client opened that has unacknowledged data or a
-    pending FIN has nothing marked as sent: all of it will be transmitted again -/
+/-- after `retransmit_all_for_0rtt` (Retry), for EVERY stream the client opened, no hypothesis on its
+    contents: every byte that is not acknowledged is scheduled again from offset 0 (`unsent = 0`, or
+    nothing is outstanding), and if the stream was finished and its FIN is not acknowledged the FIN is
+    queued again — also for an empty stream, which has no data that would carry it -/
 theorem retry_retransmits_all {s s' : State} (h : s.retransmitAllFor0rtt = some s') (d : Dir) (j : Nat)
-    (hj : j < s.next.get d) (x' : Send) (hf : s'.send.find? (sidNew .client d j) = some (some x'))
-    (hna : (x'.pending.isFullyAcked && !x'.finPending) = false) : x'.pending.unsent = 0 :=
-  rtx0_nothing_unsent h d j hj x' hf hna
+    (hj : j < s.next.get d) (x' : Send) (hf : s'.send.find? (sidNew .client d j) = some (some x')) :
+    (x'.pending.unsent = 0 ∨ x'.pending.isFullyAcked = true) ∧
+    (x'.state = .dataSent false → x'.finPending = true) := by
+  obtain ⟨h1, h2⟩ := rtx0_resent h d j hj x' hf
+  refine ⟨?_, h2⟩
+  cases hfa : x'.pending.isFullyAcked
+  · exact Or.inl (h1 (by simp [hfa]))
+  · exact Or.inr rfl
+
+/-- the empty-finished-stream history (corpus/streams/retry-empty-fin.ops): a stream opened and
+    finished in 0-RTT with no data, its FIN transmitted; after the Retry the FIN is sent again -/
+def retryEmptyFin : Option (State × Hist) :=
+  runOps State.initial [] [.new ⟨.client, 0, 0, 1000, 1000, 1000⟩, .params ⟨100, 100, 100, 10, 10, 1000⟩,
+    .open_ .uni, .finish 2, .transmit 1200 true, .rtx0, .transmit 1200 true]
+
+example : (retryEmptyFin.map fun r => (r.2.take 3).reverse.map (·.2)) =
+    some [.xmit 3 [⟨2, 0, 0, true⟩], .ok, .xmit 3 [⟨2, 0, 0, true⟩]] := by decide
+
+/-- SHAPE tripwire (not a behavioural theorem; the Connection-level Retry branch is outside the streams
+    model): the Retry branch re-queues the non-STREAM retransmittable frames (RESET_STREAM, STOP_SENDING,
+    MAX_*) recorded for the discarded 0-RTT packets (`pending |= info.retransmits`) before it calls
+    `retransmit_all_for_0rtt`, which re-queues STREAM data and FINs only. The anchor is `false` when that
+    line is gone, and this then fails. -/
+theorem retry_requeues_sent_control_frames : Gen.retryRequeuesSentControlFrames = true := by decide
 
 /-- a 0-RTT history with 13 bytes in flight -/
 def retryWitness : Option State :=
